@@ -61,6 +61,14 @@ type Op struct {
 	D      int64 // adv / gc nanoseconds
 	Req    int   // cancel
 	Chosen string
+	Extra  []ExtraHold `json:",omitempty"` // restartwith: holds appended to session Sid's list in the file before the restart
+}
+
+// ExtraHold is one hold written into the state file behind the server's back (a crash image that
+// lists more than the server had acknowledged).
+type ExtraHold struct {
+	Name, Key string
+	Size      int32
 }
 
 func optS(p *int32) string {
@@ -125,6 +133,12 @@ func (o Op) Line() string {
 		return fmt.Sprintf("%s %d", o.Kind, o.D)
 	case "restart":
 		return "restart"
+	case "restartwith":
+		p := []string{"restartwith", Tok(o.Sid)}
+		for _, e := range o.Extra {
+			p = append(p, Tok(e.Name), Tok(e.Key), strconv.Itoa(int(e.Size)))
+		}
+		return strings.Join(p, " ")
 	case "ipcunlock":
 		k, c := "-", "-"
 		if o.Key != "" {
@@ -222,6 +236,9 @@ var kRe = regexp.MustCompile(`K[0-9]+`)
 
 // RealKey turns a canonical key expression into the string sent to the server.
 func (im *Impl) RealKey(canon string) string {
+	if rest, ok := strings.CutPrefix(canon, "UP:"); ok { // the same key in upper case: a different key
+		return strings.ToUpper(im.RealKey(rest))
+	}
 	return kRe.ReplaceAllStringFunc(canon, func(m string) string {
 		n, _ := strconv.Atoi(m[1:])
 		if u, ok := im.keyOf[n]; ok {
@@ -421,11 +438,37 @@ func (im *Impl) Exec(o Op) (r Resp) {
 		time.Sleep(time.Duration(o.D))
 	case "gc":
 		im.LS.VerifManager().VerifGc(time.Duration(o.D))
-	case "restart":
+	case "restart", "restartwith":
 		im.CancelAll()
 		im.closer()
 		im.closer = nil
 		synctest.Wait()
+		if o.Kind == "restartwith" && im.Cfg.File {
+			uuid := o.Sid
+			for u, c := range im.sidCanon {
+				if c == o.Sid {
+					uuid = u
+				}
+			}
+			st, err := store.New(im.StatePath)
+			if err != nil {
+				panic(err)
+			}
+			m, err := st.Read()
+			if err != nil {
+				panic(err)
+			}
+			if m == nil {
+				m = map[string][]cl.Lock{}
+			}
+			for _, e := range o.Extra {
+				m[uuid] = append(m[uuid], cl.New(e.Name, e.Key, e.Size))
+			}
+			if err := st.Write(m); err != nil {
+				panic(err)
+			}
+			st.Close()
+		}
 		im.sess = map[string]*sessRec{}
 		im.boot()
 	case "ipcunlock":
